@@ -37,15 +37,15 @@ theorem readAll_probes (c : Cfg) (w : World) (l : List Src) (st : St) :
 /-- the zombie probe runs iff the method checks for it, its first source came back empty and the
     directory still exists -/
 def zprobeRuns (c : Cfg) (m : Meth) (st : St) (w : World) : Bool :=
-  match readAll c w st m.srcs with
+  match readAll c w st (m.eff w) with
   | (_, .ok cs) => m.zprobe && cs.head? == some Content.empty && !(w.st == PState.gone)
   | _ => false
 
 theorem platCall_probes (c : Cfg) (m : Meth) (st : St) (w : World) :
     (platCall c m st w).1.probes = st.probes + (if zprobeRuns c m st w then 1 else 0) := by
   unfold platCall zprobeRuns
-  have h1 := readAll_probes c w m.srcs st
-  rcases hm : readAll c w st m.srcs with ⟨st1, r1⟩
+  have h1 := readAll_probes c w (m.eff w) st
+  rcases hm : readAll c w st (m.eff w) with ⟨st1, r1⟩
   rw [hm] at h1
   cases r1 with
   | error e => simpa using h1
@@ -297,6 +297,7 @@ theorem step_probes_clean (c : Cfg) (hv : c.validatesFirst = true) (y : Sys) (op
   | setVer s v => rfl
   | setDenied s b => rfl
   | setState p => rfl
+  | setAbsent s b => rfl
 
 theorem runAll_probes_clean (c : Cfg) (hv : c.validatesFirst = true) (ops : List Op) (y : Sys)
     (h : ops.all (cleanOp c) = true) : (runAll c y ops).st.probes = y.st.probes := by
